@@ -24,7 +24,23 @@ pub mod c17;
 
 use crate::util::*;
 
+/// run the monitors of one property; a crate panic that escapes every inner guard is an observation too
 pub fn run(p: &Params, rep: &mut Report) -> bool {
+    let mut known = true;
+    let r = guard(|| {
+        known = run_inner(p, rep);
+    });
+    if let Err(msg) = r {
+        if panic_in_harness(&msg) {
+            rep.harness_error(format!("monitor panicked: {}", msg));
+        } else {
+            rep.violation("panic", "panic-unguarded", format!("the crate panicked on well-formed input while the workload of {} was running: {}", p.prop, msg), "shard", &format!("shard {} of {} seed {}", p.shard, p.nshards, p.seed), p.seed);
+        }
+    }
+    known
+}
+
+fn run_inner(p: &Params, rep: &mut Report) -> bool {
     rectx::CLOSURE_MS.store(if p.thorough { 2000 } else { 400 }, std::sync::atomic::Ordering::Relaxed);
     match p.prop.as_str() {
         "C01" => c01::run(p, rep),
@@ -53,6 +69,15 @@ pub fn run(p: &Params, rep: &mut Report) -> bool {
 }
 
 pub fn replay(prop: &str, kind: &str, text: &str, seed: u64, rep: &mut Report) -> bool {
+    if kind == "shard" {
+        // "shard K of N seed S": re-run that whole shard (quick tier)
+        let nums: Vec<u64> = text.split_whitespace().filter_map(|t| t.parse().ok()).collect();
+        if nums.len() == 3 {
+            let p = Params { prop: prop.to_string(), seed: nums[2], shard: nums[0], nshards: nums[1], thorough: false, profile: String::new(), scale: 100 };
+            return run(&p, rep);
+        }
+        return false;
+    }
     match prop {
         "C01" => c01::replay(kind, text, seed, rep),
         "C02" => c02::replay(kind, text, seed, rep),
